@@ -32,7 +32,8 @@ RULE = ('2-3 source objects, 1-2 targets with 2-6 allow_refs parameters (bounded
         'every link kind x ctor|late x every follow-up pair; after every step the oracle recomputes every linked value from the observed '
         'sources and checks the _sync_refs watchers of every source against the observed refs. non-trivial = at least one source update '
         'was propagated into a target; distinct = distinct canonical case')
-COVERAGE_TARGETS = ['ctor:par', 'ctor:fn', 'ctor:rx', 'ctor:nested', 'late:par:ok', 'late:fn:ok', 'late:rx:ok', 'late:nested:ok',
+COVERAGE_TARGETS = ['ctor:par', 'ctor:fn', 'ctor:rx', 'ctor:nested', 'ctor:skipfn', 'late:par:ok', 'late:fn:ok', 'late:rx:ok', 'late:nested:ok',
+                    'late:skipfn:ok', 'set:ref:linked:skip', 'set:ref:free:skip',
                     'set:ref:free:ok', 'set:ref:linked:ok', 'set:plain:linked:ok', 'srcSet:synced:ok', 'srcSet:sync:ValueError',
                     'srcSet:quiet:ok', 'ctxEnter:ok', 'ctxExit:ok', 'update:ok', 'setCls:ok', 'ctxEnter:form:kw', 'ctxEnter:form:dict', 'ctxEnter:form:pos',
                     'update:form:kw', 'update:form:dict', 'update:form:pos']
@@ -57,12 +58,16 @@ def directed():
         'fn': R.fn([[0, 0], [1, 1]], 1),
         'rx': R.fn([[0, 0], [2, 0]], 2, True),
         'nested': R.cont(R.par(0, 0), R.fn([[1, 0]], 0, True)),
+        'skipfn': R.fn([[0, 0]], 0, sk=2),          # raises Skip now (S0.v0 = 1), yields a value from 2 on
     }
     def follow(slot, other):
         pair = slot == 2
         plain = R.cont(R.lit(4), R.lit(5)) if pair else R.lit(4)
         new = R.cont(R.par(2, 1), R.lit(1)) if pair else R.par(2, 1)
+        skipping = R.cont(R.fn([[2, 1]], 0, sk=9), R.lit(1)) if pair else R.fn([[2, 1]], 0, sk=9)   # S2.v1 = 5: Skip
         return {
+            'relink-skip': [{'op': 'set', 't': 0, 'p': slot, 'rhs': skipping}],
+            'unskip': [{'op': 'srcSet', 's': 2, 'i': 1, 'v': 9}],
             'src-dep': [{'op': 'srcSet', 's': 0, 'i': 0, 'v': 4}],
             'src-other': [{'op': 'srcSet', 's': 2, 'i': 1, 'v': 3}, {'op': 'srcSet', 's': 1, 'i': 0, 'v': 5}],
             'src-same': [{'op': 'srcSet', 's': 0, 'i': 0, 'v': 1}],
@@ -82,7 +87,8 @@ def directed():
         other = 1
         names = list(follow(slot, other))
         for a, b in itertools.product(names, names):
-            if two and (a, b) not in (('src-dep', 'override'), ('relink', 'src-dep'), ('override', 'relink'), ('src-bad', 'src-dep')):
+            if two and (a, b) not in (('src-dep', 'override'), ('relink', 'src-dep'), ('override', 'relink'), ('src-bad', 'src-dep'),
+                                      ('relink-skip', 'src-dep'), ('relink-skip', 'unskip')):
                 continue
             ctor, ops = [[1, R.par(1, 0)]], []
             if late:
